@@ -24,6 +24,7 @@ pub fn known_compile_triggers(h: &hir::HirSpec) -> Vec<&'static str> {
     if h.operations.iter().any(|o| op_has_non_display_parameter(h, o)) { t.push("nonDisplayParameter"); }
     if !directly_recursive_models(h).is_empty() { t.push("directRecursiveModel"); }
     if !shadowing_models(h).is_empty() { t.push("schemaNameShadowsPrelude"); }
+    if !type_alias_cycles(h).is_empty() { t.push("typeAliasCycle"); }
     if h.schemas.values().any(flatten_field_clash) { t.push("flattenFieldNameClash"); }
     if h.operations.iter().any(op_url_ident_mismatch) { t.push("urlPlaceholderIdentMismatch"); }
     t
@@ -211,6 +212,25 @@ pub fn directly_recursive_models(h: &hir::HirSpec) -> BTreeSet<String> {
     out
 }
 
+/// type aliases that expand to themselves: an alias component whose type reaches it again through lists / maps
+/// of alias components only (`type T = HashMap<String, T>`)
+pub fn type_alias_cycles(h: &hir::HirSpec) -> BTreeSet<String> {
+    fn target(t: &mir::Ty) -> Option<&String> {
+        match t { mir::Ty::Model(m) => Some(m), mir::Ty::Array(i) => target(i), mir::Ty::HashMap(i) => target(i), _ => None }
+    }
+    let next = |n: &String| -> Option<&String> { match h.schemas.get(n) { Some(hir::Record::TypeAlias(_, f)) => target(&f.ty), _ => None } };
+    let mut out = BTreeSet::new();
+    for start in h.schemas.keys() {
+        let mut cur = start;
+        for _ in 0..h.schemas.len() + 1 {
+            let Some(n) = next(cur) else { break };
+            if n == start { out.insert(start.clone()); break; }
+            cur = n;
+        }
+    }
+    out
+}
+
 pub fn shadowing_models(h: &hir::HirSpec) -> Vec<String> {
     use mir_rust::ToRustIdent;
     h.schemas.keys().map(|n| n.to_rust_struct().0).filter(|i| PRELUDE_NAMES.contains(&i.as_str())).collect()
@@ -261,6 +281,7 @@ fn classify_lib_error(e: &str, _c: &EmitCase, em: &Emitted) -> (String, Vec<Stri
         if (e.contains("to_string") || e.contains("Display")) && op_has_non_display_parameter(&em.hir, o) { trig.push("nonDisplayParameter".to_string()); }
     }
     if (tag == "recursiveType" || e.contains("recursion limit") || e.contains("infinite size")) && !directly_recursive_models(&em.hir).is_empty() { trig.push("directRecursiveModel".to_string()); }
+    if tag == "recursiveType" && e.contains("expanding type alias") && !type_alias_cycles(&em.hir).is_empty() { trig.push("typeAliasCycle".to_string()); }
     if let Some(stem) = regex::Regex::new(r"--> c\d+/src/model/([A-Za-z0-9_]+)\.rs").unwrap().captures(e).map(|c| c[1].to_string()) {
         use mir_rust::ToRustIdent;
         if em.hir.schemas.iter().any(|(n, r)| mir_rust::sanitize_filename(n) == stem && flatten_field_clash(r)) { trig.push("flattenFieldNameClash".to_string()); }
@@ -808,4 +829,116 @@ pub fn run_k15(tier: &str, seed: u64, out: &str) {
         if url.starts_with(&base) && path_matches(&op.path, &url[base.len()..]) { rep.bump("k15_base_url_ok"); }
         else { rep.oracle_fail("wrongBaseUrl", trig, &case, &format!("{} {}: requested {url}, expected {base} followed by the operation path", op.method, op.path)); }
     });
+}
+
+// ---- K03: every operation executed with all inputs and with the required inputs only --------------------
+
+/// the generated example with its chain of optional setters removed: `client.op(required..).await.unwrap()`
+fn required_only_variant(src: &str) -> Option<String> {
+    use quote::ToTokens;
+    let mut file = syn::parse_file(src).ok()?;
+    fn strip(e: &mut syn::Expr) {
+        match e {
+            syn::Expr::MethodCall(m) => {
+                // `.unwrap()` / setters sit on top of `.await` or of another call; keep only the call whose receiver is the bare `client`
+                strip(&mut m.receiver);
+                let inner_is_client = matches!(&*m.receiver, syn::Expr::Path(_));
+                let is_unwrap = m.method == "unwrap";
+                if !inner_is_client && !is_unwrap { *e = (*m.receiver).clone(); }
+            }
+            syn::Expr::Await(a) => strip(&mut a.base),
+            _ => {}
+        }
+    }
+    for item in file.items.iter_mut() {
+        if let syn::Item::Fn(f) = item {
+            if f.sig.ident != "main" { continue; }
+            for st in f.block.stmts.iter_mut() {
+                if let syn::Stmt::Local(l) = st {
+                    if l.pat.to_token_stream().to_string() == "response" { if let Some(init) = l.init.as_mut() { strip(&mut init.expr); } }
+                }
+            }
+        }
+    }
+    Some(file.to_token_stream().to_string())
+}
+
+pub fn run_k03(tier: &str, seed: u64, out: &str) {
+    silence_panics();
+    let mut rep = Report::new("C03", tier, seed);
+    let cases = compile_cases("C03", tier, seed, &mut rep, true);
+    let tag = format!("k03-{tier}");
+    let n = cases.len();
+    let mut evals = 0u64;
+    let mut nontrivial = 0u64;
+    let mut distinct = BTreeSet::new();
+    let extra = |_c: &EmitCase, em: &Emitted| -> Vec<(String, String)> {
+        em.tree.iter().filter_map(|(p, b)| { let stem = p.strip_prefix("examples/")?.strip_suffix(".rs")?; required_only_variant(&String::from_utf8_lossy(b)).map(|s| (format!("{stem}__required_only"), s)) }).collect()
+    };
+    if let Some(b) = build_all(&tag, cases, &mut rep, true, &extra) {
+        let mut jobs: Vec<(usize, String, bool)> = vec![];
+        for (i, _c) in b.cases.iter().enumerate() {
+            let (Some(r), Some(_em)) = (b.results.get(&format!("c{i}")), b.emitted[i].as_ref()) else { continue };
+            if !r.lib_errors.is_empty() { rep.bump("skipped_library_does_not_compile"); continue; }
+            for e in &r.built_examples { jobs.push((i, e.clone(), e.ends_with("__required_only"))); }
+        }
+        let runs: Vec<cratecheck::RunOut> = model::par_map(&jobs, |(i, e, _)| {
+            let em = b.emitted[*i].as_ref().unwrap();
+            let lib = String::from_utf8_lossy(em.tree.get("src/lib.rs").map(|x| &x[..]).unwrap_or(b"")).to_string();
+            let env: Vec<(String, String)> = cratecheck::env_vars_of(&lib).into_iter().map(|k| { let v = if k.ends_with("_ENV") { "production".to_string() } else if k.ends_with("BASE_URL") { "https://base.example".to_string() } else { format!("env-{k}") }; (k, v) }).collect();
+            cratecheck::run_example(&b.tag, &format!("c{i}"), e, &env, "", 20)
+        });
+        for ((i, e, required_only), run) in jobs.iter().zip(runs.iter()) {
+            let c = &b.cases[*i];
+            let em = b.emitted[*i].as_ref().unwrap();
+            let stem = e.strip_suffix("__required_only").unwrap_or(e);
+            let Some(op) = em.hir.operations.iter().find(|o| mir_rust::sanitize_filename(&o.file_name()) == stem) else { continue };
+            let reqs: Vec<Value> = run.stdout.lines().filter_map(|l| l.strip_prefix("REQUEST ")).filter_map(|l| serde_json::from_str(l).ok()).collect();
+            if reqs.len() != 1 { rep.bump("runs_without_exactly_one_request(C16)"); continue; }
+            evals += 1;
+            if distinct.insert(fnv(&format!("{}{}", reqs[0], required_only))) && !op.parameters.is_empty() { nontrivial += 1; }
+            judge_request(&mut rep, c, op, &reqs[0], *required_only);
+        }
+    }
+    cratecheck::cleanup(&tag);
+    rep.evaluations = evals;
+    rep.distinct_nontrivial = nontrivial;
+    rep.rule = format!("{n} generated crates built with their examples and, for every example, a variant with the chain of optional setters removed; each program is run against the recording client. The recorded request must have the operation's verb and path (placeholders filled), carry every supplied input at its declared location under its exact name, and - in the required-only variant - carry no optional input at all. Non-trivial = distinct recorded requests of operations that have inputs");
+    rep.write(out);
+}
+
+fn judge_request(rep: &mut Report, c: &EmitCase, op: &hir::Operation, r: &Value, required_only: bool) {
+    let case = case_text(c);
+    let which = if required_only { "required inputs only" } else { "all inputs" };
+    let url = r["url"].as_str().unwrap_or("");
+    let path = url.find("://").map(|i| &url[i + 3..]).map(|x| x.find('/').map(|j| &x[j..]).unwrap_or("")).unwrap_or(url);
+    let ok_path = (0..=path.len()).filter(|i| path.is_char_boundary(*i)).any(|i| path_matches(&op.path, &path[i..]));
+    if r["method"].as_str().unwrap_or("") != op.method.to_uppercase() || !ok_path {
+        rep.oracle_fail("wrongTarget", vec![], &case, &format!("({which}) requested {} {} for operation {} {}", r["method"], url, op.method, op.path));
+    }
+    let Ok(spec) = crate::pipeline::parse_spec(&serde_json::to_string(&c.doc).unwrap(), true) else { return };
+    let Some(declared) = spec.operations().find(|(p, m, _, _)| *p == op.path && *m == op.method).and_then(|(_, _, o, item)| crate::hirprops::declared_inputs(&spec, o, item)) else { return };
+    let fold = |s: &str| s.chars().filter(|c| c.is_ascii_alphanumeric()).collect::<String>().to_lowercase();
+    if declared.iter().enumerate().any(|(i, (n, l, _))| declared.iter().skip(i + 1).any(|(m, k, _)| fold(n) == fold(m) && (n != m || (l == "body") == (k == "body")))) { rep.bump("operations_outside_D_input_names_clash"); return; }
+    let empty = vec![];
+    // a non-object body travels as one input called `body` (recorded finding: it is wrapped in an object)
+    let wrapped_body = declared.iter().any(|(n, l, _)| n == "body" && l == "body") && !op.parameters.iter().any(|p| p.location != hir::Location::Body && p.name == "body");
+    for (name, loc, required) in &declared {
+        let has = |list: &Value, n: &str| list.as_array().unwrap_or(&empty).iter().any(|kv| kv[0].as_str() == Some(n) || kv[0].as_str() == Some(&format!("{n}[]")));
+        let present = match loc.as_str() {
+            "query" => has(&r["query"], name),
+            "header" => has(&r["headers"], name),
+            "cookie" => has(&r["cookies"], name),
+            "body" => r["body"].get(name).is_some(),
+            _ => continue,
+        };
+        let shadow = loc == "body" && declared.iter().any(|(m, k, _)| m == name && k != "body");
+        if shadow { continue; } // recorded under C05 / C03's emit stage
+        let expected = *required || !required_only;
+        if present != expected {
+            let trig = if wrapped_body && name == "body" { vec!["wrappedBody".to_string()] } else { vec![] };
+            rep.oracle_fail(if expected { "inputNotSent" } else { "unsetOptionalSent" }, trig, &case, &format!("({which}) {} {}: {loc} input {name} (required: {required}) is {} the request {}", op.method, op.path, if present { "in" } else { "missing from" }, r));
+        }
+    }
+    rep.bump(if required_only { "k03_required_only_runs" } else { "k03_all_inputs_runs" });
 }
